@@ -47,6 +47,7 @@ type shardArgs struct {
 	Out      string
 	Progress string
 	CPUMul   float64
+	Max      int // stop after this many cases (fresh process per batch); 0 = no limit
 	Race     bool
 	Verbose  bool
 }
@@ -175,13 +176,17 @@ func RunShard(a shardArgs) int {
 		curCase = -1
 		wmu.Unlock()
 		res.Cases++
+		if a.Max > 0 && res.Cases >= a.Max && a.Only < 0 {
+			res.Next = k + 1
+			break
+		}
 		if time.Since(lastWrite) > 5*time.Second { // not a verdict, only checkpointing
 			writeOut()
 			lastWrite = time.Now()
 		}
 	}
 	close(stop)
-	res.Done = true
+	res.Done = res.Next == 0
 	writeOut()
 	return 0
 }
@@ -322,6 +327,9 @@ func supervise(pc *ParentCtx, race bool, shard, n int, out *ShardResult, mu *syn
 		if race {
 			args = append(args, "-race")
 		}
+		if p.CasesPerProcess > 0 {
+			args = append(args, "-max", strconv.Itoa(p.CasesPerProcess))
+		}
 		cmd := exec.Command(exe, args...)
 		ef, _ := os.Create(errF)
 		cmd.Stderr = ef
@@ -340,6 +348,11 @@ func supervise(pc *ParentCtx, race bool, shard, n int, out *ShardResult, mu *syn
 		}
 		if err == nil && r != nil && r.Done {
 			return
+		}
+		if err == nil && r != nil && r.Next > 0 {
+			from = r.Next
+			attempt-- // a planned restart, not a death
+			continue
 		}
 		// The child died or the watchdog fired: attribute to the case in the progress file.
 		k := -1
@@ -527,7 +540,7 @@ func collectRaceLogs(pc *ParentCtx) {
 	pc.Info["race_logs_parsed"] = len(files)
 }
 
-var frameRe = regexp.MustCompile(`(?m)^  (github\.com/protobom/protobom/[^\s(]+)\(`)
+var frameRe = regexp.MustCompile(`(?m)^  (github\.com/protobom/protobom/\S*)\(\)\s*$`)
 
 // raceSignature: the outermost protobom entry points of the two stacks, sorted.
 func raceSignature(rep string) string {
